@@ -1,4 +1,5 @@
-(* C07 - lemmas (in progress) *)
-From Coq Require Import List ZArith Bool Arith Lia.
-From PV Require Import C07.Model C07.Spec.
-Import ListNotations.
+(* C07 - lemmas; split over several files of this directory:
+   Lib (lists), ProofsSlp (tensor path), ProofsPacked (packed path), ProofsWalk (random walk and
+   the wrapper's log_prob), ProofsSupport (enumerated support, normalisation, samples),
+   ProofsGreedy (greedy CTC). *)
+From PV Require Export C07.Lib C07.ProofsSlp C07.ProofsPacked C07.ProofsWalk C07.ProofsSupport C07.ProofsGreedy.
